@@ -479,6 +479,76 @@ def real_grand_canonical_runs(rep, rs, nruns, steps):
     return ntr
 
 
+class _JudgeCanon:
+    """user criteria around the shipped canonical one in a REAL run: verdict, uniform drawn, and the textbook ln A from the
+    energies `atoms.get_potential_energy()` gives for the trial configuration and gave for the configuration the trial
+    started from (recorded by the harness at the yield)"""
+
+    def __init__(self, inner, box):
+        self.inner, self.box = inner, box
+
+    def evaluate(self, context):
+        b = self.box
+        e_trial = float(context.atoms.get_potential_energy())
+        la = -(e_trial - b["e_pre"]) / (kB * b["T"])
+        nlog = len(context.rng.log)
+        v = bool(self.inner.evaluate(context))
+        draws = [x for x in context.rng.log[nlog:] if x[0] in ("random", "uniform") and x[2] is not None]
+        b["records"].append({"la": la, "u": draws[-1][2] if draws else None, "verdict": v})
+        return v
+
+    def to_dict(self):
+        return self.inner.to_dict()
+
+
+def real_canonical_runs(rep, rs, nruns, steps):
+    """Real Canonical runs on atoms that carry an energy-bearing ASE constraint (a Hookean restraint): the energy of a
+    configuration is what atoms.get_potential_energy() says -- calculator energy plus restraint energy -- for the trial
+    configuration AND for the reference."""
+    from ase.calculators.emt import EMT
+    from ase.constraints import Hookean
+
+    from quansino.mc.canonical import Canonical
+    from quansino.moves.displacement import DisplacementMove
+    from quansino.operations.displacement import Ball
+
+    ntr = 0
+    for r_ in range(nruns):
+        T = float(rs.choice([300.0, 1000.0]))
+        a = Atoms("Cu3", positions=[[0, 0, 0], [2.5, 0, 0], [1.2, 2.2, 0.3]], cell=[12, 12, 12], pbc=False)
+        a.positions += 4.0
+        if r_ % 2 == 0:
+            a.set_constraint(Hookean(a1=0, a2=1, rt=2.0, k=float(rs.choice([2.0, 8.0]))))
+        a.calc = EMT()
+        mc = Canonical(a, temperature=T, max_cycles=2, seed=int(rs.randint(1, 10**6)))
+        mc.add_move(DisplacementMove(np.arange(3), Ball(0.15)), name="disp")
+        box = {"T": T, "records": [], "e_pre": None}
+        mc.moves["disp"].criteria = _JudgeCanon(mc.moves["disp"].criteria, box)
+        g = ScriptedGenerator(int(rs.randint(1, 10**6)))
+        mc._rng = g
+        mc.context.rng = g
+        try:
+            for st in mc.irun(steps):
+                for _ in st:
+                    box["e_pre"] = float(mc.atoms.get_potential_energy())  # at the yield: the configuration the trial starts from
+        except Exception as ex:  # noqa: BLE001
+            rep.violation(f"raise:real-canonical-run:{type(ex).__name__}", f"a canonical run with {'a Hookean restraint' if r_ % 2 == 0 else 'no constraint'} raised {ex!r}", {})
+            continue
+        rep.count(("real-canonical-run", r_), nontrivial=True)
+        for i, rec in enumerate(box["records"]):
+            ntr += 1
+            if rec["u"] is None:
+                continue
+            lu = math.log(rec["u"]) if rec["u"] > 0 else -1e9
+            if abs(lu - min(0.0, rec["la"])) < 1e-9 * max(1.0, abs(rec["la"])) + 1e-12:
+                continue
+            want = lu < min(0.0, rec["la"])
+            if rec["verdict"] != want:
+                rep.violation(f"verdict:canonical:real-run:{'hookean' if r_ % 2 == 0 else 'free'}", f"canonical trial {i} of a real run ({'Hookean restraint on a bond' if r_ % 2 == 0 else 'no constraint'}): verdict {rec['verdict']}, the rule with dE from atoms.get_potential_energy() before and after says {want} (ln A = {rec['la']:.4f}, ln u = {lu:.4f})", {"record": rec})
+                break
+    return ntr
+
+
 def run(tier: str) -> int:
     rep = Report("C02", tier, "model_checking")
     rs = np.random.RandomState(rep.seed % 2**32)
@@ -658,6 +728,7 @@ def run(tier: str) -> int:
     nrun = first_trial_reference(rep, rs, 12 if tier == "quick" else 120)
     rep.add(first_trial_runs=nrun, sequences=nseq, default_criteria_cases=default_criteria_layer(rep))
     rep.add(real_run_trials=real_grand_canonical_runs(rep, rs, 4 if tier == "quick" else 24, 60 if tier == "quick" else 200))
+    rep.add(real_canonical_trials=real_canonical_runs(rep, rs, 4 if tier == "quick" else 24, 40 if tier == "quick" else 150))
     rep.add(states=r.distinct, transitions=r.generated, traces_validated_against_impl=n_real, exhaustive=True, lattice_points=len(pts), hydrostatic_pairs=nh, offlattice=noff,
             guard_band_discards=guard, isotension_points_skipped_strain_definition=skipped_strain,
             rule="every lattice point of Accept.tla (energies, P dV, stress work, mu in units of kT ln2 incl. 0, +-1, +-709, +-1025, +-1100, +-1e6; V'/V = 2^m; prefactor 2^a; N in 0..3; u = 2^-(j+1/2), j up to 1000; T in {T0, 2T0}) realised on real Canonical/HamiltonianCanonical/Isobaric/Isotension/GrandCanonical objects through their property setters after installing stale values (cubic, triclinic, sheared cells; atomic and molecular species; antisymmetric stress decoration); plus random hydrostatic isotension-vs-isobaric pairs and random off-lattice inputs judged by the log-form mirror with a guard band")
